@@ -149,6 +149,22 @@ C12_Case(id, ss, ctxk) ==
         cmds |-> <<FindAllCmd(<<Ref("p")>>)>>,
         texts |-> <<<<ba>>, <<bb>>, <<ba, ba>>>>]
 
+(* two transforms (or a transform and a predicate) in one source: each is    *)
+(* checked in an environment of its own - what one assigns does not type    *)
+(* the other's names                                                        *)
+C12_Writers == { <<SSet("x", PNum(1)), SRet(PStr(Sa))>>, <<SSet("x", PBool(TRUE)), SSet("y", PNum(2)), SRet(PStr(Sa))>>,
+                 <<SSet("x", PStr(Sa)), SRet(PVar("x"))>>, <<SRet(PStr(Sa))>> }
+C12_Readers == { <<SRet(PUn("head", PVar("x")))>>, <<SIf(PVar("x"), <<SRet(PStr(Sa))>>, <<>>), SRet(PStr(S7))>>,
+                 <<SRet(PBin("+", PVar("x"), PNum(1)))>>, <<SRet(PBin("-", PVar("y"), PNum(1)))>>, <<SRet(PBin("and", PVar("x"), PBool(TRUE)))>>,
+                 <<SSet("x", PNum(3)), SRet(PBin("*", PVar("x"), PNum(2)))>> }
+C12_Case2(id, w, r, order) ==
+  [id |-> id, defs |-> <<>>, ctx |-> "trans",
+   trans |-> IF order = 1 THEN <<[name |-> "f", stmts |-> w], [name |-> "g", stmts |-> r]>>
+                          ELSE <<[name |-> "g", stmts |-> r], [name |-> "f", stmts |-> w]>>,
+   accept |-> Check(w, "trans") /\ Check(r, "trans"),
+   cmds |-> <<[kind |-> "replace", amt |-> [k |-> "all"], body |-> <<La>>, with |-> <<WName("f"), WStr(<<124>>), WName("g")>>]>>,
+   texts |-> <<<<ba>>, <<bb, ba>>>>]
+
 (* ============================================================ C09, process *)
 (* transforms applied to arbitrary match text: `match` in every operand     *)
 (* position of every operator the checker accepts                           *)
